@@ -99,16 +99,16 @@ CHECKS = {
              "refine the abstract machine, so each takes effect atomically at its step (C06_atomic_steps_linearize); no deadlock: "
              "for any number of threads, if every thread asks only for locks ranked above those it holds, some lock holder is "
              "never blocked (C06_no_deadlock), and fs_db's acquisition sequences are strictly increasing (C06_fsdb_lock_order). "
-             "The read path is REFUTED as atomic (C06_read_atomic_refuted: look-up, then overwrite + collection, then fetch gives "
-             "NotFound for a key that always had a value) - defect D11, a known finding reproduced on every run through a pause "
+             "The read path WAS not atomic (C06_read_atomic_refuted_orig: look-up, then overwrite + collection, then fetch gave "
+             "NotFound for a key that always had a value) - defect D11, repaired for Get/GetReader by a fix: commit (the version is resolved again: C06_read_retry_witness, C06_read_retry_linearizable); GetKeys is built the same way and is NOT repaired (C06_keys_atomic_refuted, known finding D11b, reproduced on every run through a pause "
              "point; proved instead: the two-step read equals the atomic read when no physical deletion touches the resolved "
              "version in between. Tie: groups of 2-4 concurrent operations under the real scheduler must be linearizable against "
              "the model (all permutations), no panic, no operation that does not return. "
              "Tie of the step granularity to the source: the lock/effect skeleton of internal/usecase/core and of the monitor types is REGENERATED from the Go source on every run (fsdbh gen-lockskel) and LockSkelCheck.fsdb_skeleton_ok is re-checked on it; C06_acquisitions_ordered (every acquisition asks for a store ranked above all held: the hypothesis of C06_no_deadlock) and C06_one_critical_section (an operation's events that need a store it enters once are in ONE critical section) are proved for arbitrary paths. A panic or a hang of the implementation inside the harness is reported as a violation with the input isolated.",
         design="7/C06", technique="Coq proof (refinement for atomic steps, lock-order theorem, refutation witness) + linearizability check against the model + translator-regenerated lock skeleton",
-        note="PARTIAL: atomicity of a critical section and the lock sequences are assumptions read from the source; interleavings "
+        note="PARTIAL: a critical section under a Go mutex is taken as one atomic step (the lock structure itself is checked on the regenerated skeleton); interleavings "
              "inside a step, RWMutex starvation order and torn reads (C15) are not modelled; un-paused schedules are whatever the Go "
-             "scheduler produces. Known finding D11. " + NOTE_COMMON),
+             "scheduler produces. Known finding D11b (GetKeys). " + NOTE_COMMON),
     "C07": dict(
         text="Theorem (Coq, on the abstract machine, any number of other transactions and writers in between): if two transactions "
              "open at the same time wrote a common key and one commits, the other - if RR/SER - fails with ErrTxSerialization "
